@@ -117,6 +117,17 @@ def execute(ns, a_src, b_src, shared_src, quota, first, gran, prefix):
     return {'res': res, 'count': b.count, 'finished': bool(ok) and all(b.done), 'blocked': b.blocked or not ok}
 
 
+def execute_main(ns, src, shared_src):
+    """The thunk alone, in the thread that imported the library (the main thread of a fresh child), untraced."""
+    env = dict(ns)
+    if shared_src:
+        exec(shared_src, env)
+    try:
+        return {'res': ('ok', repr(eval(src, env)))}
+    except BaseException as e:  # noqa
+        return {'res': ('exc', type(e).__name__ + ': ' + str(e)[:120])}
+
+
 def in_child(fn):
     r, w = os.pipe()
     pid = os.fork()
@@ -176,6 +187,20 @@ def main():
         out['executions'] += 4
         admissible = {(tuple(s_ab['res'][0]), tuple(s_ab['res'][1])), (tuple(s_ba['res'][0]), tuple(s_ba['res'][1]))}
         out['solo'] = [sa['res'][0], sb['res'][1]]
+        # the same call in the thread that imported the library: which thread asks must not matter (per-thread tables, thread-local
+        # state filled at import time)
+        for which, src, solo in (('a', a, sa['res'][0]), ('b', bsrc, sb['res'][1])):
+            m = in_child(lambda: execute_main(ns, src, sh))
+            out['executions'] += 1
+            if 'error' in m:
+                out['error'] = m['error']
+                break
+            if tuple(m['res']) != tuple(solo):
+                out['violations'].append({'preempted': which, 'at_point': 0, 'of': 0, 'thread_dependent': True, 'got': [list(solo), None],
+                                          'sequential': [[list(m['res']), None]]})
+        if 'error' in out:
+            print(json.dumps(out), flush=True)
+            continue
         out['points'] = [sa['count'][0], sb['count'][1]]
         for i, n in ((0, sa['count'][0]), (1, sb['count'][1])):
             for k in range(1, min(n, max_points) + 1):
